@@ -76,16 +76,18 @@ class Ctx:
         groups: dict[bool, list[dict]] = {}
         for c in cases:
             groups.setdefault(bool(c.get("x64", False)), []).append(c)
+        # shards: at most MAX_CASES_PER_PROC cases per worker process (JAX keeps every compiled function of a process
+        # alive, so memory grows with the number of cases a process has seen), at most `workers` processes at a time
+        maxc = int(getattr(mod, "MAX_CASES_PER_PROC", 40))
         jobs = []
-        nshards_total = max(1, min(self.workers, len(cases)))
         for x64, cs in groups.items():
-            n = max(1, round(nshards_total * len(cs) / len(cases)))
+            share = max(1, round(self.workers * len(cs) / len(cases)))
+            n = max(share, -(-len(cs) // maxc))
             n = min(n, len(cs))
             cs = sorted(cs, key=lambda c: -float(c.get("cost", 1.0)))
-            shards = [cs[i::n] for i in range(n)]
-            for i, shard in enumerate(shards):
-                jobs.append((x64, shard))
-        procs = []
+            for i in range(n):
+                jobs.append((x64, cs[i::n]))
+        jobs.sort(key=lambda j: -sum(float(c.get("cost", 1.0)) for c in j[1]))
         env = dict(os.environ)
         env["XLA_FLAGS"] = (
             env.get("XLA_FLAGS", "")
@@ -94,7 +96,8 @@ class Ctx:
         ).strip()
         for v in ("OMP_NUM_THREADS", "OPENBLAS_NUM_THREADS", "MKL_NUM_THREADS"):
             env[v] = str(threads)
-        for j, (x64, shard) in enumerate(jobs):
+
+        def start(j, x64, shard):
             base = os.path.join(self.tmpdir, f"r{self._round}_s{j}")
             with open(base + ".in.json", "w") as f:
                 json.dump({"cases": shard, "x64": x64}, f)
@@ -109,18 +112,9 @@ class Ctx:
                  base + ".in.json", base + ".out.json"],
                 stdout=log, stderr=subprocess.STDOUT, env=e, cwd=VERIF_ROOT,
             )
-            procs.append((p, base, shard, log))
-        deadline = time.time() + timeout
-        new_results = []
-        for p, base, shard, log in procs:
-            left = max(1.0, deadline - time.time())
-            timed_out = False
-            try:
-                p.wait(timeout=left)
-            except subprocess.TimeoutExpired:
-                p.kill()
-                p.wait()
-                timed_out = True
+            return (p, base, shard, log)
+
+        def collect(p, base, shard, log, timed_out):
             log.close()
             outp = base + ".out.json"
             if not os.path.exists(outp) and os.path.exists(outp + ".part"):
@@ -151,6 +145,39 @@ class Ctx:
                 self.inconclusive.append(
                     f"worker died (rc={p.returncode}) on shard of {len(shard)}: {tail}"
                 )
+            for suffix in (".in.json", ".out.json", ".out.json.part"):
+                try:
+                    os.unlink(base + suffix)
+                except OSError:
+                    pass
+
+        deadline = time.time() + timeout
+        new_results: list[dict] = []
+        pending = list(enumerate(jobs))
+        running: list[tuple] = []
+        while pending or running:
+            while pending and len(running) < self.workers:
+                j, (x64, shard) = pending.pop(0)
+                running.append(start(j, x64, shard))
+            still = []
+            for item in running:
+                if item[0].poll() is None:
+                    still.append(item)
+                else:
+                    collect(*item, timed_out=False)
+            running = still
+            if time.time() > deadline:
+                for item in running:
+                    item[0].kill()
+                    item[0].wait()
+                    collect(*item, timed_out=True)
+                running = []
+                if pending:
+                    self.inconclusive.append(f"watchdog: {len(pending)} shards never started within {timeout}s")
+                    pending = []
+                break
+            if running:
+                time.sleep(0.2)
         self.results.extend(new_results)
         return new_results
 
